@@ -6,7 +6,7 @@ from .replies import (b64, draw_events, draw_payload, exec_envelope, ids_of, ins
                       varint, wellformed_data)
 
 CELLS = ["none", "wellformed", "wellformed-long", "empty-envelope", "wrong-tag", "wrong-wire-type", "truncated", "varint-too-long",
-         "json-garbage", "json-wrong-type", "json-empty-inner"]
+         "json-garbage", "json-wrong-type", "json-empty-inner", "json-null-inner", "bare-json"]
 
 
 def long_value(ty, size):
@@ -90,6 +90,31 @@ def make_cell(rng, prog, canon, m, cell):
         raw = exec_envelope(inner)
     elif cell == "json-empty-inner":
         raw = pb_field(1, b"")  # field present, zero length
+    elif cell == "json-null-inner":
+        # present data whose JSON is `null`: only a type that accepts null may decode it; for every other type it is undecodable
+        # data, not absent data -- also for the optional mode
+        if mode not in ("typed", "opt") or "ok" in canon.one(m["data_ti"], "null"):
+            return None, ("skip",)
+        raw = exec_envelope(b"null")
+    elif cell == "bare-json":
+        # JSON of a value of the declared type *without* the response envelope around it: the bytes are not a protobuf
+        # message (a truncated length-delimited or fixed-width field / an end-group tag), so nothing may be decoded from them
+        if mode not in ("typed", "opt"):
+            return None, ("skip",)
+        r_ = prog["types"][m["data_ti"]].rust
+        if r_ in ("String", "Option<String>"):
+            w = dumps(rng.choice(["hello world", "zebra", "unwrapped"]))
+        elif r_ == "Uint128":
+            w = dumps(rng.choice(["17", "25"]))
+        elif r_ in ("u64", "Option<u32>"):
+            w = rng.choice(["17", "25", "1234"])
+        elif r_ == "bool":
+            w = "true"
+        else:
+            return None, ("skip",)
+        if "ok" not in canon.one(m["data_ti"], w):
+            return None, ("skip",)
+        raw = w.encode()
     elif cell == "json-wrong-type":
         if mode not in ("typed", "opt"):
             return None, ("skip",)
